@@ -153,15 +153,24 @@ def var_key(n):
 
 
 def mentioned_keys(n):
+    """Keys whose later modification invalidates the truth of condition n.  For an
+    embedded assignment `(v = expr) < end` the value compared is v's: only the
+    left-hand side counts (expr has been consumed into v)."""
     out = set()
-    for x in walk(n):
+    stack = [n]
+    while stack:
+        x = stack.pop()
         k = x.get('kind')
+        if k in ('BinaryOperator',) and x.get('opcode') == '=' and x.get('inner'):
+            stack.append(x['inner'][0])
+            continue
         if k in ('DeclRefExpr', 'MemberExpr'):
             v = var_key(x)
             if v:
                 out.add(v)
         elif k == 'CXXThisExpr':
             out.add('this')
+        stack.extend(kids(x))
     return out
 
 
